@@ -56,6 +56,29 @@ pub(crate) fn mask_string_literals(tokens: &str) -> String {
     masked
 }
 
+/// Text of a numeric literal in the form `str::parse` accepts: the token stream prints a negative
+/// literal as `- 10`, and Rust allows `_` separators and a type suffix (`1_000`, `2.5f64`, `10u32`)
+fn numeric_literal_text(value: &str) -> String {
+    let value = value.trim();
+    let (sign, digits) = match value.strip_prefix('-') {
+        Some(rest) => ("-", rest.trim_start()),
+        None => ("", value),
+    };
+    let mut text: String = digits.chars().filter(|c| *c != '_').collect();
+    for suffix in [
+        "f32", "f64", "u8", "u16", "u32", "u64", "u128", "usize", "i8", "i16", "i32", "i64",
+        "i128", "isize",
+    ] {
+        if let Some(stripped) = text.strip_suffix(suffix) {
+            if stripped.ends_with(|c: char| c.is_ascii_digit() || c == '.') {
+                text = stripped.to_string();
+                break;
+            }
+        }
+    }
+    format!("{}{}", sign, text)
+}
+
 impl ValidatorParser {
     pub fn new() -> Self {
         Self
@@ -139,12 +162,12 @@ impl ValidatorParser {
                             let after_eq = &content[min_pos + eq_pos + 1..];
                             if let Some(comma_pos) = after_eq.find(',') {
                                 let value_str = after_eq[..comma_pos].trim();
-                                if let Ok(value) = value_str.parse::<u64>() {
+                                if let Ok(value) = numeric_literal_text(value_str).parse::<u64>() {
                                     constraint.min = Some(value);
                                 }
                             } else {
                                 let value_str = after_eq.trim();
-                                if let Ok(value) = value_str.parse::<u64>() {
+                                if let Ok(value) = numeric_literal_text(value_str).parse::<u64>() {
                                     constraint.min = Some(value);
                                 }
                             }
@@ -157,12 +180,12 @@ impl ValidatorParser {
                             let after_eq = &content[max_pos + eq_pos + 1..];
                             if let Some(comma_pos) = after_eq.find(',') {
                                 let value_str = after_eq[..comma_pos].trim();
-                                if let Ok(value) = value_str.parse::<u64>() {
+                                if let Ok(value) = numeric_literal_text(value_str).parse::<u64>() {
                                     constraint.max = Some(value);
                                 }
                             } else {
                                 let value_str = after_eq.trim();
-                                if let Ok(value) = value_str.parse::<u64>() {
+                                if let Ok(value) = numeric_literal_text(value_str).parse::<u64>() {
                                     constraint.max = Some(value);
                                 }
                             }
@@ -206,12 +229,12 @@ impl ValidatorParser {
                             let after_eq = &content[min_pos + eq_pos + 1..];
                             if let Some(comma_pos) = after_eq.find(',') {
                                 let value_str = after_eq[..comma_pos].trim();
-                                if let Ok(value) = value_str.parse::<f64>() {
+                                if let Ok(value) = numeric_literal_text(value_str).parse::<f64>() {
                                     constraint.min = Some(value);
                                 }
                             } else {
                                 let value_str = after_eq.trim();
-                                if let Ok(value) = value_str.parse::<f64>() {
+                                if let Ok(value) = numeric_literal_text(value_str).parse::<f64>() {
                                     constraint.min = Some(value);
                                 }
                             }
@@ -224,12 +247,12 @@ impl ValidatorParser {
                             let after_eq = &content[max_pos + eq_pos + 1..];
                             if let Some(comma_pos) = after_eq.find(',') {
                                 let value_str = after_eq[..comma_pos].trim();
-                                if let Ok(value) = value_str.parse::<f64>() {
+                                if let Ok(value) = numeric_literal_text(value_str).parse::<f64>() {
                                     constraint.max = Some(value);
                                 }
                             } else {
                                 let value_str = after_eq.trim();
-                                if let Ok(value) = value_str.parse::<f64>() {
+                                if let Ok(value) = numeric_literal_text(value_str).parse::<f64>() {
                                     constraint.max = Some(value);
                                 }
                             }
